@@ -102,7 +102,9 @@ CHECKS = {
         "values read from the same slot of self, nothing else is written to "
         "the copy, self is not written; invert() negates the parity for "
         "chiral classes and returns self otherwise; inversion tables are "
-        "improper operations.",
+        "improper operations; the change setters (which replace a centre's "
+        "whole entry) are never called once per role inside a loop over one "
+        "change dictionary (R-SETTER-ONCE).",
         "Not decided: g == g.enantiomer() exactly for achiral / meso "
         "structures (needs search completeness).",
         "DESIGN.md 3/C06"),
@@ -158,7 +160,8 @@ CHECKS = {
         "atom order. Known finding: are_planar is not symmetric in its "
         "points (F17). The square-planar ring-order table contains all three "
         "trans pairings; no perception function stores on its arguments or "
-        "is memoised.",
+        "is memoised; the order of a descriptor's atom tuple never comes "
+        "from iterating a set (R-SET-ORDER).",
         "Not decided: invariance under reordering of the input atoms beyond "
         "these table / symmetry rules, thresholds and ties, axial heuristics, "
         "sign conventions.",
@@ -206,7 +209,10 @@ CHECKS = {
         "importer's reconstruction; a label the exporter writes only for a "
         "specified parity is optional in the importer; export has no write "
         "effect on the graph; set_bond_orders indexes dictionaries by the "
-        "right kind. Known finding F42: identifier 0 is written as atom-map "
+        "right kind; a label decision taken by orbit membership also reads "
+        "the descriptor's parity (R-PARITY-USED); every assignment of the "
+        "permutation label (fast paths too) is a candidate of the round "
+        "trip. Known finding F42: identifier 0 is written as atom-map "
         "number 0, which the map-number import rejects.",
         "Trusted: RDKit keeps bond-insertion neighbour order and carries "
         "tags / labels / atom-map numbers, and keeps E/Z stereo of a double "
@@ -231,7 +237,9 @@ CHECKS = {
         "over pairs selected under AC[i, j] == 1; matrices are copies of AC; "
         "returned matrices are AC / BO / best_BO: by induction symmetric, "
         "integer, >= AC, positive exactly on bonded pairs; the connectivity "
-        "matrix handed in is numbered by the atoms view.",
+        "matrix handed in is numbered by the atoms view; in set_bond_orders "
+        "every dictionary is indexed with its own key kind and the matrix "
+        "with matrix positions (kinds followed through locals).",
         "The chemical part (octets, valences, order independence) is an "
         "algorithmic search: not decided.",
         "DESIGN.md 3/C18"),
